@@ -7,6 +7,7 @@ R1 required / allowed keys and JSON types of the full writers vs docs/schema.jso
 from __future__ import annotations
 
 import ast
+import re
 import json
 
 from sa.callgraph import CallGraph
@@ -288,6 +289,39 @@ def run(prog: Program, ctx: Ctx) -> None:  # noqa: PLR0912,PLR0915
         except _Raised as r:
             got_kind = f"raises {r.exc}"
         ctx.ob("R1", f"section-kind-written|{val}", got_kind in enum_vals and got_kind == val, f"{c.name}.as_dict() writes kind {got_kind!r}; the schema lists {val!r}", f"{c.module.relpath}:{c.node.lineno}")
+    # ... and on a section holding what the parsers put there (the declared type of `value`): the writer returns plain data, whatever the element type
+    def _sample(c_: ClassInfo) -> object:
+        _m, ann_ = declared_type(prog, c_, "value")
+        txt = unparse(ann_) if ann_ is not None else ""
+        if "tuple[" in txt:
+            return [("text", "Some text."), ("examples", ">>> 1 + 1")]
+        inner = re.search(r"list\[(Docstring\w+)\]", txt)
+        name_ = inner.group(1) if inner else (txt if txt.startswith("Docstring") else None)
+        if name_ is None:
+            return "Some text."
+        ecls_ = prog.cls(f"_griffe.docstrings.models.{name_}")
+        init_ = prog.lookup_method(ecls_, "__init__")[0]
+        a_ = init_.node.args
+        req = [x.arg for x in a_.args[1:len(a_.args) - len(a_.defaults)]]
+        kwreq = {x.arg: "d" for x, dflt in zip(a_.kwonlyargs, a_.kw_defaults) if dflt is None}
+        el = its._construct(ecls_, ["n"] * len(req), kwreq)
+        return [el] if inner else el
+
+    def _plain(x: object) -> bool:
+        return x is None or isinstance(x, (str, int, float, bool)) or (isinstance(x, (list, tuple)) and all(_plain(y) for y in x)) or (
+            isinstance(x, dict) and all(isinstance(k_, str) and _plain(v_) for k_, v_ in x.items())) or (isinstance(x, _Obj) and x.cls is not None and bool(prog.lookup_method(x.cls, "as_dict")))
+
+    n_filled = 0
+    for val, c in sorted(written.items()):
+        try:
+            sec_obj = _Obj(c, {"value": _sample(c), "title": None}, label=c.name)
+            d = its.call(prog.lookup_method(c, "as_dict")[0], sec_obj)
+            okf, msg = isinstance(d, dict) and _plain(d.get("value")), f"writes value {d.get('value') if isinstance(d, dict) else d!r}"
+        except _Raised as r:
+            okf, msg = False, f"raises {r.exc} (the encoder takes an AttributeError for 'no as_dict' and gives up on the section: no document is produced)"
+        n_filled += 1
+        ctx.ob("R1", f"section-filled-written|{val}", okf, f"{c.name}.as_dict() on a section holding its declared kind of value {msg}", f"{c.module.relpath}:{c.node.lineno}")
+    ctx.expect_min("R1", n_filled, 14)
     swk = writer_keys(prog, base)
     for r in sec.get("required", []):
         ctx.ob("R1", f"section|required|{r}", r in swk and swk[r].always, f"section dicts always carry `{r}`", loc)
